@@ -77,6 +77,15 @@ func check(c arith.Case, st *core.Stats) error {
 		if !ref.SameValue(o.D, e.R) {
 			return fmt.Errorf("%s %v: got %s flags=%s, expected %v (q=%s r=%s)", pair.name, c, core.Show(o.D), core.FlagStr(o.Res), e.R, q, r)
 		}
+		if pair.name == "QuoInteger" && e.R.Form == apd.Infinite {
+			// the quotient fits the precision but lies above the exponent range
+			// (MaxExponent < Precision-1): it overflows like any other result
+			st.Class("quotient-above-the-exponent-range")
+			if !o.Res.Overflow() || !o.Res.Inexact() {
+				return fmt.Errorf("QuoInteger %v: quotient %s is above the exponent range, expected Overflow|Inexact, got %s", c, q, core.FlagStr(o.Res))
+			}
+			continue
+		}
 		if pair.name == "QuoInteger" {
 			if o.D.Exponent != 0 {
 				return fmt.Errorf("QuoInteger %v: result %s must have exponent 0", c, core.Show(o.D))
